@@ -14,6 +14,7 @@ pub mod c15;
 pub mod c16;
 pub mod c17;
 pub mod clonefam;
+pub mod xself;
 
 pub const REGISTRY: &[(&str, PropFn)] = &[
     ("C01", c01::run),
@@ -32,6 +33,8 @@ pub const REGISTRY: &[(&str, PropFn)] = &[
     ("C15", c15::run),
     ("C16", c16::run),
     ("C17", c17::run),
+    ("XHASHORDER", xself::hashorder),
+    ("XCROSS", xself::cross),
 ];
 
 pub fn lookup(name: &str) -> Option<PropFn> {
